@@ -407,6 +407,13 @@ Definition loop_body (F : rtfuns) (cid : nat) (H : heap) : option heap :=
   | [] => Some H1
   | _ :: _ => match rdrain F cid H1 with None => None | Some H2 => rloop F cid H2 end
   end.
+(* a Completed / Cancelled task: tasks.remove(id); finished.store(true); wake_join_handles(); drop(task) *)
+Definition finish_task (cid s : nat) (t : trec) (H2 : heap) : heap :=
+  let H4 := ucmd cid (slab_remove s) H2 in
+  let ws := tf_joinw (gtf (t_uid t) H4) in
+  let H5 := utf (t_uid t) (fun tf => mkTF true (tf_abort tf) (tf_alive tf) []) H4 in
+  let H6 := fold_left (fun Hh wk => wake WF wk Hh) ws H5 in
+  kill_flag (t_uid t) (drop_fs DF (t_fs t) H6).
 Definition drain_body (F : rtfuns) (cid : nat) (H : heap) : option heap :=
   match c_ready (gcmd cid H) with
   | [] => Some H
@@ -416,13 +423,7 @@ Definition drain_body (F : rtfuns) (cid : nat) (H : heap) : option heap :=
     let H3 := match st with
       | Completed | Cancelled =>
         match slab_get s (gcmd cid H2) with
-        | Some t =>
-          let H4 := ucmd cid (slab_remove s) H2 in
-          (* finished.store(true); wake_join_handles(); drop(task) *)
-          let ws := tf_joinw (gtf (t_uid t) H4) in
-          let H5 := utf (t_uid t) (fun tf => mkTF true (tf_abort tf) (tf_alive tf) []) H4 in
-          let H6 := fold_left (fun Hh wk => wake WF wk Hh) ws H5 in
-          kill_flag (t_uid t) (drop_fs DF (t_fs t) H6)
+        | Some t => finish_task cid s t H2
         | None => H2 end
       | Missing | Suspended => H2 end in
     rdrain F cid H3 end
